@@ -483,7 +483,7 @@ def invalidate(rng, root, n=1):
         states = [x for x in nodes if x.kind in ("state", "parallel", "final")]
         ts = [(x, t) for x in nodes for t in x.trans]
         k = rng.choice(["dangling", "init-outside", "hist-none", "hist-two", "hist-cond", "hist-event", "multi", "dupid", "noid",
-                        "init-bad", "emptytarget", "hist-target", "initial-two", "initial-cond", "initial-outside", "multi-deep"])
+                        "init-bad", "emptytarget", "hist-target", "initial-two", "initial-cond", "initial-outside", "multi-deep", "multi-late"])
         try:
             if k == "dangling" and ts:
                 x, t = rng.choice(ts); t.targets = (t.targets or []) + ["nosuch"]
@@ -513,6 +513,13 @@ def invalidate(rng, root, n=1):
                 if k == "multi-deep":
                     a = rng.choice([a] + [q for q in a.descendants() if q.kind in PROPER]); b = rng.choice([b] + [q for q in b.descendants() if q.kind in PROPER])
                 t.targets = [a.id, b.id]
+            elif k == "multi-late" and ts:
+                # three targets, the incompatible pair is not the first one examined: a, something compatible with a, a's sibling
+                x, t = rng.choice(ts)
+                comp = [s for s in nodes if s.kind in ("state", "scxml") and len(s.proper_children()) >= 2]
+                c = rng.choice(comp); a, b = rng.sample(c.proper_children(), 2)
+                mids = [q for q in a.descendants() if q.kind in PROPER] + ([c] if c.kind == "state" else [])
+                t.targets = [a.id, rng.choice(mids).id, b.id] if rng.random() < 0.7 else [rng.choice(mids).id, a.id, b.id]
             elif k == "dupid" and len(states) >= 2:
                 a, b = rng.sample(states, 2); b.id = a.id
             elif k == "noid":
